@@ -48,6 +48,21 @@ BIN_TABLES = {
 }
 
 
+# larger tables (the dtype of the input id columns matters once bin1 * nbins leaves the range of a narrow integer type)
+BIG_TABLES = {
+    12: [[5, 5, 5, 5, 2], [7, 7, 7, 1], [3, 9, 4]],
+    13: [[4] * 9 + [1], [6, 6, 2]],
+    16: [[10] * 8, [10] * 5 + [3], [10, 10, 4]],
+    20: [[3] * 11 + [2], [8], [5, 1, 5, 1, 5, 1, 5, 2]],
+    300: [[10] * 149 + [3], [10] * 100, [7] * 49 + [2]],
+}
+ID_DTYPES = ["int8", "uint8", "int16", "uint16", "int32", "uint32", "int64"]
+
+
+def id_dtype_holds(name, n):
+    return n - 1 <= int(np.iinfo(np_dtype(name)).max)
+
+
 def bins_for(widths):
     return table_from_blocks(blocks_from_widths(widths))
 
@@ -58,7 +73,7 @@ def nbins_of(widths):
 
 def np_dtype(name):
     return {"int8": np.int8, "int16": np.int16, "int32": np.int32, "int64": np.int64, "uint8": np.uint8,
-            "uint16": np.uint16, "float64": np.float64, "float32": np.float32}[name]
+            "uint16": np.uint16, "uint32": np.uint32, "float64": np.float64, "float32": np.float32}[name]
 
 
 def col_values(rows, k, kind, in_dtype=None):
